@@ -76,6 +76,9 @@ type Input struct {
 	Delegating []VotingIn `json:"delegating"`
 	Bonding    []VotingIn `json:"bonding"`
 	Events     []EventIn  `json:"events"`
+	// Pipeline: this term was read back from an icsim run (its well-formedness is then an obligation
+	// of the code base, not of the generator).
+	Pipeline bool `json:"pipeline,omitempty"`
 }
 
 func bi(s string) *big.Int {
@@ -157,8 +160,8 @@ type outcome struct {
 	calcErr  error
 	res      *calculator.VerifC35Result
 	credits  []credit
-	tReward  *big.Int // fundToPeriodIScore(Iprep amount, period)
-	minWage  *big.Int // fundToPeriodIScore(Iwage amount, period)
+	tReward  *big.Int         // fundToPeriodIScore(Iprep amount, period)
+	minWage  *big.Int         // fundToPeriodIScore(Iwage amount, period)
 	iscore   map[int]*big.Int // I-Score added to temp by the run
 	real     bool             // the snapshots come from the simulator (claims etc. may be present)
 }
@@ -459,12 +462,19 @@ func oracle(in *Input, o *outcome) string {
 		return "" // reported as a generator note, not a property violation
 	}
 	if !checkWF(in) {
+		if in.Pipeline {
+			// the theorems' hypothesis is supposed to hold for everything the pipeline produces
+			return "the pipeline handed the calculator a term that is not well-formed: " + whyNotWF(in)
+		}
 		return ""
 	}
 	if o.panicked != "" {
 		return "reward calculation panicked on a well-formed term: " + o.panicked
 	}
 	if o.calcErr != nil || o.res == nil {
+		if in.Pipeline && o.calcErr != nil {
+			return "the reward calculation failed on a term produced by the pipeline: " + o.calcErr.Error()
+		}
 		return "" // nothing is credited when the calculation fails
 	}
 	period := int64(in.Limit + 1)
@@ -748,10 +758,10 @@ func (g *gen) amount() *big.Int {
 func pick(r *rand.Rand, xs ...int) int { return xs[r.Intn(len(xs))] }
 
 type termOpts struct {
-	kind        string
-	overdraw    bool // some voter takes back more than it has (running balance negative)
+	kind         string
+	overdraw     bool // some voter takes back more than it has (running balance negative)
 	inconsistent bool // a P-Rep's totals differ from the sum of its voters' votes
-	manyEvents  bool
+	manyEvents   bool
 }
 
 // genTerm builds one term.
@@ -1210,8 +1220,8 @@ func main() {
 	log.GlobalLogger().SetOutput(io.Discard)
 	log.GlobalLogger().SetLevel(log.PanicLevel)
 	hxlib.Main(hxlib.Spec{
-		ID: "C35",
-		Rule: "each case is one whole term run through the real iiss4Reward.Calculate on real icstage/icreward states: 1-30 P-Reps (all enable statuses, with/without public key, zero bond, commission 0..100%), 3-23 voters (some are P-Reps, some vote for unregistered addresses) whose delegations/bonds add up to the P-Reps' totals, 0-24 (or 130-190) events at sorted offsets incl. 0, limit and the key-encoding boundaries 127/128/255/256/32767/32768 (vote deltas incl. full withdrawal, enable/disable/jail, P-Reps and voters appearing during the term), term lengths 1..43120, funds 0..5e24, all bond requirements; malformed streams: a voter overdrawing (calculation must fail) and P-Rep totals inconsistent with the voters (model must still reproduce every number); non-trivial = calculation succeeded, at least two positive credits and at least one event; distinct = distinct Coq case term",
+		ID:    "C35",
+		Rule:  "each case is one whole term run through the real iiss4Reward.Calculate on real icstage/icreward states: 1-30 P-Reps (all enable statuses, with/without public key, zero bond, commission 0..100%), 3-23 voters (some are P-Reps, some vote for unregistered addresses) whose delegations/bonds add up to the P-Reps' totals, 0-24 (or 130-190) events at sorted offsets incl. 0, limit and the key-encoding boundaries 127/128/255/256/32767/32768 (vote deltas incl. full withdrawal, enable/disable/jail, P-Reps and voters appearing during the term), term lengths 1..43120, funds 0..5e24, all bond requirements; malformed streams: a voter overdrawing (calculation must fail) and P-Rep totals inconsistent with the voters (model must still reproduce every number); non-trivial = calculation succeeded, at least two positive credits and at least one event; distinct = distinct Coq case term",
 		Shard: 24,
 		Gen:   genAll, Replay: replay,
 	})
